@@ -129,6 +129,16 @@ fn prop_salt(prop: &str) -> u64 {
 /// Run one case and judge it with the monitors of `out.prop`.
 pub fn monitor_line(out: &mut Out, line: &str) {
     let (l, r) = out.case(line);
+    // a monitor that cannot cope with a case is a gap of the machinery, not a property violation:
+    // the case stays unjudged by it (the correspondence still compares it) and is counted
+    let judged = std::panic::catch_unwind(std::panic::AssertUnwindSafe(|| judge(out, &l, &r)));
+    if judged.is_err() {
+        *out.hist.entry("monitor-could-not-judge".into()).or_insert(0) += 1;
+    }
+}
+
+fn judge(out: &mut Out, l: &str, r: &str) {
+    let (l, r) = (l.to_string(), r.to_string());
     let prop = out.prop.clone();
     match prop.as_str() {
         "C01" => {
